@@ -830,7 +830,7 @@ pub fn run(run: &Run) {
     run.section_exhaustive("event-table", true, "every single event (alone and after a QPACK encoder stream), every (frame type, cut point) truncation on the three stream roles and every control-stream opening variant, on both roles");
     prop_search(
         run,
-        Search { check: "histories-e2e", cases: run.tier.pick(800, 8000), workers: 8, max_shrink_iters: 80 },
+        Search { check: "histories-e2e", cases: run.tier.pick(800, 40000), workers: 8, max_shrink_iters: 80 },
         case_strategy,
         |c| judge(|| exec(c), false, "C12:e2e:hang"),
         |c| serde_json::to_value(c).unwrap(),
